@@ -185,6 +185,24 @@ pub fn add_roots(m: &mut walrus::Module, seed: u64) -> String {
         m.exports.add("wv_root_g", globals[rng.usize(globals.len())]);
         what.push("export-global");
     }
+    if rng.chance(1, 2) {
+        // a function made with the builder (several results: its entry sequence has a multi-value type), exported
+        let results: &[walrus::ValType] = if rng.bool() { &[walrus::ValType::I32, walrus::ValType::I64] } else { &[walrus::ValType::F64, walrus::ValType::I32, walrus::ValType::I32] };
+        let mut fb = walrus::FunctionBuilder::new(&mut m.types, &[], results);
+        {
+            let mut b = fb.func_body();
+            for r in results {
+                match r {
+                    walrus::ValType::I32 => b.i32_const(11),
+                    walrus::ValType::I64 => b.i64_const(12),
+                    _ => b.f64_const(1.5),
+                };
+            }
+        }
+        let f = fb.finish(vec![], &mut m.funcs);
+        m.exports.add("wv_root_built", f);
+        what.push("built-multi-value-func");
+    }
     if m.start.is_none() && rng.chance(1, 4) {
         let cands: Vec<walrus::FunctionId> = m.funcs.iter().filter(|f| { let t = m.types.get(f.ty()); t.params().is_empty() && t.results().is_empty() }).map(|f| f.id()).collect();
         if !cands.is_empty() {
